@@ -1,3 +1,5 @@
+//go:build linux || darwin
+
 package server
 
 // C15 witness search: one in-process server (the real gin engine from GenerateRoutes, the real
@@ -22,10 +24,12 @@ import (
 	"log/slog"
 	"net/http"
 	"net/http/httptest"
+	"os"
 	"runtime"
 	"strings"
 	"sync"
 	"sync/atomic"
+	"syscall"
 	"testing"
 	"time"
 
@@ -36,6 +40,7 @@ import (
 	"github.com/ollama/ollama/format"
 	"github.com/ollama/ollama/fs/ggml"
 	"github.com/ollama/ollama/llm"
+	"github.com/ollama/ollama/types/model"
 	"github.com/ollama/ollama/zzverif"
 )
 
@@ -241,6 +246,8 @@ func TestVerifC15(t *testing.T) {
 
 	out.Add("workers", workers)
 	out.Add("gomaxprocs", runtime.GOMAXPROCS(0))
+	c15StoreRaces(t, out, root.Fork(), zzverif.EnvInt("VERIF_STORE_SWEEPS", 1), base)
+	out.Flush()
 	c15FailedLoadTrials(t, out, root.Fork(), zzverif.EnvInt("VERIF_TRIALS", 120), base, shortToPath)
 	out.Flush()
 	per := time.Duration(secs) * time.Second / time.Duration(rounds)
@@ -394,7 +401,7 @@ func c15FailedLoadTrials(t *testing.T, out *zzverif.Out, rng *zzverif.Rng, trial
 			case p.code == 0:
 				out.L2("ps-hung", caseLine, "GET /api/ps did not return: "+p.body)
 				wedged = true
-			case p.code >= 500 && strings.TrimSpace(p.body) == "":
+			case c15Panicked(p.code, p.body):
 				out.L2("panic-recovered", caseLine+" op=ps", fmt.Sprintf("GET /api/ps answered %d with an empty body (recovered panic)", p.code))
 			case p.code != 200:
 				out.L2("ps-5xx", caseLine, fmt.Sprintf("GET /api/ps answered %d %.200s", p.code, p.body))
@@ -438,6 +445,217 @@ func c15FailedLoadTrials(t *testing.T, out *zzverif.Out, rng *zzverif.Rng, trial
 			out.L2(kind, caseLine+" after", fmt.Sprintf("GET /api/ps after the failed load answered %d %.200s", c, b))
 		}
 	}
+}
+
+// c15Panicked: gin's Recovery answers 500 with an empty body; every error a handler reports itself
+// is a JSON object with an "error" member.  A 5xx that is not of that form is a recovered panic.
+func c15Panicked(code int, body string) bool {
+	if code < 500 {
+		return false
+	}
+	var e struct {
+		Error *string `json:"error"`
+	}
+	if json.Unmarshal([]byte(strings.TrimSpace(body)), &e) == nil && e.Error != nil {
+		return false
+	}
+	return true
+}
+
+// c15StoreRaces is the directed search on STORE state (manifests and blobs, no mutex): one request
+// that reads a model (show, tags, generate, create FROM it) is stalled in the middle of its reads
+// while another request (delete, re-create, copy over it) runs to completion on the same name, then
+// continues.  The stall needs no source hook: the blob the reader is about to open (the config
+// blob or one of the layers) is replaced by a named pipe, so the open blocks like a read from a
+// slow disk until the driver, having run the writer, feeds the original bytes.  Every stall point
+// x reader x writer is enumerated.  No request may panic (recovered or not); the store must still
+// answer afterwards.
+func c15StoreRaces(t *testing.T, out *zzverif.Out, rng *zzverif.Rng, sweeps int, base []string) {
+	ctx, cancel := context.WithCancel(context.Background())
+	defer cancel()
+	sched := InitScheduler(ctx)
+	sched.getGpuFn = func() discover.GpuInfoList {
+		g := discover.GpuInfo{Library: "metal"}
+		g.TotalMemory = 24 * format.GigaByte
+		g.FreeMemory = 12 * format.GigaByte
+		return []discover.GpuInfo{g}
+	}
+	sched.getCpuFn = sched.getGpuFn
+	sched.newServerFn = func(gpus discover.GpuInfoList, model string, f *ggml.GGML, adapters []string, projectors []string, opts api.Options, numParallel int) (llm.LlamaServer, error) {
+		return &c15Runner{modelPath: model, created: time.Now(), vram: 1 << 20}, nil
+	}
+	s := &Server{sched: sched}
+	h, err := s.GenerateRoutes(nil)
+	if err != nil {
+		t.Fatalf("C15-SETUP: %v", err)
+	}
+	sched.Run(ctx)
+
+	const victim = "victim"
+	zero := api.Duration{}
+	readers := map[string]func() (int, string){
+		"show": func() (int, string) { return c15Do(h, "POST", "/api/show", api.ShowRequest{Model: victim}) },
+		"tags": func() (int, string) { return c15Do(h, "GET", "/api/tags", nil) },
+		"generate": func() (int, string) {
+			return c15Do(h, "POST", "/api/generate", api.GenerateRequest{Model: victim, Prompt: "hi", Stream: &stream, KeepAlive: &zero})
+		},
+		"create-from": func() (int, string) {
+			return c15Do(h, "POST", "/api/create", api.CreateRequest{Model: "derived", From: victim, System: "derived", Stream: &stream})
+		},
+		"copy-from": func() (int, string) {
+			return c15Do(h, "POST", "/api/copy", api.CopyRequest{Source: victim, Destination: "copied"})
+		},
+	}
+	readerNames := []string{"show", "tags", "generate", "create-from", "copy-from"}
+	writers := map[string]func(n int) (int, string){
+		"delete": func(n int) (int, string) { return c15Do(h, "DELETE", "/api/delete", api.DeleteRequest{Model: victim}) },
+		"recreate": func(n int) (int, string) {
+			return c15Do(h, "POST", "/api/create", api.CreateRequest{Model: victim, From: base[1], System: fmt.Sprintf("other %d", n), Stream: &stream})
+		},
+		"copy-over": func(n int) (int, string) {
+			return c15Do(h, "POST", "/api/copy", api.CopyRequest{Source: base[2], Destination: victim})
+		},
+	}
+	writerNames := []string{"delete", "recreate", "copy-over"}
+
+	n := 0
+	for sweep := 0; sweep < sweeps; sweep++ {
+		// stall points are discovered from the victim's manifest: config blob + every layer
+		for stall := 0; ; stall++ {
+			more := false
+			for _, rn := range readerNames {
+				for _, wn := range writerNames {
+					n++
+					code, body := c15Do(h, "POST", "/api/create", api.CreateRequest{Model: victim, From: base[0], Stream: &stream,
+						System: fmt.Sprintf("system %d", n), Template: "{{ .Prompt }} victim", License: "a licence",
+						Parameters: map[string]any{"temperature": 0.5}})
+					if code != 200 {
+						t.Fatalf("C15-SETUP: create victim: %d %s", code, body)
+					}
+					mf, err := ParseNamedManifest(model.ParseName(victim))
+					if err != nil {
+						t.Fatalf("C15-SETUP: %v", err)
+					}
+					blobs := []Layer{mf.Config}
+					blobs = append(blobs, mf.Layers...)
+					if stall >= len(blobs) {
+						continue
+					}
+					more = true
+					what := blobs[stall].MediaType
+					what = what[strings.LastIndex(what, ".")+1:]
+					if stall == 0 {
+						what = "config"
+					}
+					if what == "model" {
+						continue // the GGUF is opened more than once and seeked: a pipe cannot stand in for it
+					}
+					caseLine := fmt.Sprintf("seed=%d phase=store-race reader=%s writer=%s stall=%s", zzverif.Seed(), rn, wn, what)
+					out.Count("cases")
+					out.Count("storerace_trials")
+					path, err := GetBlobsPath(blobs[stall].Digest)
+					if err != nil {
+						t.Fatalf("C15-SETUP: %v", err)
+					}
+					orig, err := os.ReadFile(path)
+					if err != nil {
+						t.Fatalf("C15-SETUP: %v", err)
+					}
+					if err := os.Remove(path); err != nil {
+						t.Fatalf("C15-SETUP: %v", err)
+					}
+					if err := syscall.Mkfifo(path, 0o644); err != nil {
+						_ = os.WriteFile(path, orig, 0o644)
+						out.Count("storerace_no_fifo")
+						return
+					}
+					type res struct {
+						code int
+						body string
+					}
+					rd := make(chan res, 1)
+					go func() {
+						c, b := readers[rn]()
+						rd <- res{c, b}
+					}()
+					// wait until the reader has the pipe open (a non-blocking open for writing
+					// succeeds only then)
+					fd := -1
+					var early *res
+					deadline := time.Now().Add(400 * time.Millisecond)
+				poll:
+					for time.Now().Before(deadline) {
+						if f, err := syscall.Open(path, syscall.O_WRONLY|syscall.O_NONBLOCK, 0); err == nil {
+							fd = f
+							break
+						}
+						select {
+						case r := <-rd:
+							early = &r
+							break poll
+						case <-time.After(100 * time.Microsecond):
+						}
+					}
+					if fd < 0 {
+						// this reader does not read this blob (or answered before): undo
+						out.Count("storerace_stall_not_reached")
+						if f, err := syscall.Open(path, syscall.O_RDWR|syscall.O_NONBLOCK, 0); err == nil {
+							tmp := path + ".c15tmp"
+							_ = os.WriteFile(tmp, orig, 0o644)
+							_, _ = syscall.Write(f, orig)
+							_ = os.Rename(tmp, path)
+							syscall.Close(f)
+						}
+						if early == nil {
+							r := <-rd
+							early = &r
+						}
+						if c15Panicked(early.code, early.body) {
+							out.L2("panic-recovered", caseLine+" (not stalled)", fmt.Sprintf("status=%d body=%.120q", early.code, early.body))
+						}
+						continue
+					}
+					out.Count("storerace_stalled_" + rn + "_at_" + what)
+					// the other request, start to finish, while the reader is stalled
+					wc, wb := writers[wn](n)
+					out.Count(fmt.Sprintf("storerace_writer_%s_%dxx", wn, wc/100))
+					if c15Panicked(wc, wb) {
+						out.L2("panic-recovered", caseLine+" request=writer", fmt.Sprintf("status=%d body=%.120q", wc, wb))
+					}
+					// the slow read completes
+					_, _ = syscall.Write(fd, orig)
+					syscall.Close(fd)
+					r := <-rd
+					out.Count(fmt.Sprintf("storerace_reader_%s_%dxx", rn, r.code/100))
+					switch {
+					case r.code == 0:
+						out.L2("store-reader-hung", caseLine, r.body)
+					case c15Panicked(r.code, r.body):
+						out.L2("panic-recovered", caseLine, fmt.Sprintf("the stalled %s request answered %d with body %.120q after %s completed (recovered panic)", rn, r.code, r.body, wn))
+					}
+					// the store must still answer
+					for _, probe := range []string{"show", "tags"} {
+						if c, b := readers[probe](); c15Panicked(c, b) || c == 0 {
+							out.L2("panic-recovered", caseLine+" after="+probe, fmt.Sprintf("status=%d body=%.120q", c, b))
+						}
+					}
+					// leave no pipe behind
+					if fi, err := os.Lstat(path); err == nil && fi.Mode()&os.ModeNamedPipe != 0 {
+						tmp := path + ".c15tmp"
+						_ = os.WriteFile(tmp, orig, 0o644)
+						_ = os.Rename(tmp, path)
+					}
+				}
+			}
+			if !more {
+				break
+			}
+		}
+	}
+	c15Do(h, "DELETE", "/api/delete", api.DeleteRequest{Model: victim})
+	c15Do(h, "DELETE", "/api/delete", api.DeleteRequest{Model: "derived"})
+	c15Do(h, "DELETE", "/api/delete", api.DeleteRequest{Model: "copied"})
+	_ = rng
 }
 
 type c15Worker struct {
@@ -618,9 +836,9 @@ wait:
 				out.L2("ps-hung", fmt.Sprintf("seed=%d round=%d op=ps", zzverif.Seed(), round), "GET /api/ps did not return: "+l.body)
 			}
 			if l.status >= 500 {
-				if strings.TrimSpace(l.body) == "" {
-					// gin's Recovery answers 500 with an empty body: a handler panicked
-					out.L2("panic-recovered", fmt.Sprintf("seed=%d round=%d op=%s", zzverif.Seed(), round, l.op), fmt.Sprintf("status=%d", l.status))
+				if c15Panicked(l.status, l.body) {
+					// not the handler's own JSON error: gin's Recovery answered (a handler panicked)
+					out.L2("panic-recovered", fmt.Sprintf("seed=%d round=%d op=%s", zzverif.Seed(), round, l.op), fmt.Sprintf("status=%d body=%.80q", l.status, l.body))
 				} else {
 					// an error the handler reported itself (e.g. a manifest deleted under a
 					// concurrent list): not a panic, outside C15's statement; counted only
